@@ -198,11 +198,11 @@ pub fn judge_recv(case: &RecvCase, o: &RecvOutcome) -> Vec<(String, String)> {
 fn recv_cases(thorough: bool) -> Vec<RecvCase> {
     let methods: Vec<Vec<Field>> = vec![vec![], vec![f(b":method", b"GET")], vec![f(b":method", b"G T")], vec![f(b":method", b"GET"), f(b":method", b"POST")]];
     let schemes: Vec<Vec<Field>> = vec![vec![], vec![f(b":scheme", b"https")], vec![f(b":scheme", b"1://")]];
-    let auths: Vec<Vec<Field>> = vec![vec![], vec![f(b":authority", b"a.example")], vec![f(b":authority", b"")], vec![f(b":authority", b"a b")]];
+    let auths: Vec<Vec<Field>> = vec![vec![], vec![f(b":authority", b"a.example")], vec![f(b":authority", b"")], vec![f(b":authority", b"a b")], vec![f(b":authority", b"A.example")]];
     let paths: Vec<Vec<Field>> = vec![vec![], vec![f(b":path", b"/")], vec![f(b":path", b"/ x")]];
     let statuses: Vec<Vec<Field>> = vec![vec![], vec![f(b":status", b"200")], vec![f(b":status", b"20")], vec![f(b":status", b"abc")]];
     let protos: Vec<Vec<Field>> = vec![vec![], vec![f(b":protocol", b"webtransport")], vec![f(b":protocol", b"nope")]];
-    let hosts: Vec<Vec<Field>> = vec![vec![], vec![f(b"host", b"a.example")], vec![f(b"host", b"b.example")], vec![f(b"host", b"")]];
+    let hosts: Vec<Vec<Field>> = vec![vec![], vec![f(b"host", b"a.example")], vec![f(b"host", b"b.example")], vec![f(b"host", b"")], vec![f(b"host", b"A.EXAMPLE")]];
     let unknowns: Vec<Vec<Field>> = vec![vec![], vec![f(b":x", b"1")]];
     let names: [&[u8]; 6] = [b"ok", b"Upper", b"", b"sp ace", b"ctl\x01", b"a:b"];
     let values: [&[u8]; 6] = [b"v", b"", b"a\rb", b"a\nb", b"a\0b", b"\x80"];
@@ -560,7 +560,7 @@ pub fn run(args: &Args) -> i32 {
     let thorough = args.tier == Tier::Thorough;
     let mut rep = Report::new("C12", args.tier, args.seed, "exploration");
     rep.exhaustive = true;
-    rep.rule = "receive: product of per-slot alternatives - :method {absent, GET, 'G T', twice} x :scheme {absent, https, '1://'} x :authority {absent, a.example, '', 'a b'} x :path {absent, '/', '/ x'} x :status {absent, 200, '20', 'abc'} x :protocol {absent, webtransport, nope} x Host {absent, same, different, ''} x undefined ':x' {absent, present} x one regular field over names {ok, Upper, '', 'sp ace', 'ctl\\x01', 'a:b'} x values {v, '', a\\rb, a\\nb, a\\0b, \\x80} (full cross with the reduced pseudo grid, 4 representative regular fields with the full one), as request; responses over :status x leaked request pseudo fields x ':x' x regular; request and response trailers over pairs of regular fields x pseudo leakage. Sections are reference-encoded with literal representations and injected by a scripted peer into a real server / client over simnet. send: 5 method kinds x 6 targets x 7 header sets x trailers, 5 statuses x 7 header sets x trailers through the API, HEADERS frames decoded by refimpl. Oracle refimpl::fields. Non-trivial = sections with at least 2 fields.".into();
+    rep.rule = "receive: product of per-slot alternatives - :method {absent, GET, 'G T', twice} x :scheme {absent, https, '1://'} x :authority {absent, a.example, '', 'a b', A.example} x :path {absent, '/', '/ x'} x :status {absent, 200, '20', 'abc'} x :protocol {absent, webtransport, nope} x Host {absent, same, different, '', differing from :authority only in letter case} x undefined ':x' {absent, present} x one regular field over names {ok, Upper, '', 'sp ace', 'ctl\\x01', 'a:b'} x values {v, '', a\\rb, a\\nb, a\\0b, \\x80} (full cross with the reduced pseudo grid, 4 representative regular fields with the full one), as request; responses over :status x leaked request pseudo fields x ':x' x regular; request and response trailers over pairs of regular fields x pseudo leakage. Sections are reference-encoded with literal representations and injected by a scripted peer into a real server / client over simnet. send: 5 method kinds x 6 targets x 7 header sets x trailers, 5 statuses x 7 header sets x trailers through the API, HEADERS frames decoded by refimpl. Oracle refimpl::fields. Non-trivial = sections with at least 2 fields.".into();
     rep.assumptions = vec![
         "the predicate is exactly the property's list (three-valued); not demanded: rejecting pseudo-after-regular, repeated pseudo fields, :status in a request, pseudo fields in trailers, unknown :protocol tokens; nor that every well-formed section is accepted (DESIGN.md 7)".into(),
         "refimpl::qpack literal encoder carries arbitrary bytes; refimpl::fields is unit-tested".into(),
